@@ -47,10 +47,11 @@ def main():
     if '--only' in sys.argv:
         only = sys.argv[sys.argv.index('--only') + 1].split(',')
     built = built_props()
+    jobs = []
     for patch in sorted(glob.glob(os.path.join(root, 'C*', '*', 'patch.diff'))):
         parts = patch.split(os.sep)
         prop, n = parts[-3], parts[-2]
-        if only and prop not in only:
+        if only and prop not in only and f'{prop}/{n}' not in only:
             continue
         props = built if run_all else ([prop] if prop in built else [])
         summary = ''
@@ -58,10 +59,19 @@ def main():
             summary = json.load(open(os.path.join(os.path.dirname(patch), 'meta.json'))).get('summary', '')[:90]
         except Exception:
             pass
-        if not props:
+        jobs.append((patch, prop, n, props, summary))
+
+    def work(job):
+        patch, prop, n, props, summary = job
+        return job, (run_one(patch, props) if props else None)
+
+    from concurrent.futures import ThreadPoolExecutor
+    with ThreadPoolExecutor(max_workers=int(os.environ.get('HIDVERIF_JOBS', '14'))) as ex:
+        results = list(ex.map(work, jobs))
+    for (patch, prop, n, props, summary), res in results:
+        if res is None:
             print(f'{prop}/{n}: (check not built) {summary}')
             continue
-        res = run_one(patch, props)
         if 'apply' in res:
             print(f'{prop}/{n}: {res["apply"]}')
             continue
